@@ -5,7 +5,8 @@
    statement is partial in that respect). All statements are for all inputs (any triangle count, any
    bone count, any assignment) inside an explicitly stated accepted domain. *)
 From NiflyVerif Require Import Res UtilModel UtilSpec CompactProofs EraseProofs FillProofs SkinModel SkinLib
-  SkinGenProofs SkinPartsProofs SkinOpsProofs SkinSplitProofs SkinUpdateProofs SkinTriPartsProofs SkinTheorems.
+  SkinGenProofs SkinPartsProofs SkinOpsProofs SkinSplitProofs SkinUpdateProofs SkinTriPartsProofs SkinTheorems
+  SkinCounters SkinTriPartsExact.
 From Coq Require Import Sorted Permutation QArith.
 Local Open Scope N_scope.
 
@@ -160,6 +161,72 @@ Theorem C10_remove_empty_keeps_cover : forall parts : list ks_pb,
   concat (map kb_tt (filter ks_nonempty parts)) = concat (map kb_tt parts).
 Proof. exact ks_filter_nonempty_cover. Qed.
 Print Assumptions C10_remove_empty_keeps_cover.
+
+(* ------------------------------------------------------------------------------------------ *)
+(* The numTriangles counter. [ks_cnt_inv s]: in every partition of s with true triangles,
+   numTriangles is their number; in a partition whose true triangles are not generated yet (loaded
+   file), what PrepareTrueTriangles will generate them from (strips / triangle list) fits the
+   uint16_t counter and numTriangles is the length of the triangle list (coq/Skin/SkinCounters.v).
+   [ks_shape_small sh]: fewer than 65536 triangles, no corner 65535. *)
+
+(* the hypothesis of C10_remove_empty_keeps_cover follows from the invariant *)
+Theorem C10_counter_zero_means_empty : forall s : ks_sp,
+  ks_cnt_inv s -> forall p, In p (kp_parts s) -> kb_nt p = 0 -> kb_tt p = [].
+Proof. exact ks_cnt_inv_zero. Qed.
+Print Assumptions C10_counter_zero_means_empty.
+
+(* every modelled operation (UpdateSkinPartitions, Get/SetShapePartitions, SetDefaultPartition,
+   DeletePartitions with ANY index list, RemoveEmptyPartitions, incl. the lazy PrepareTrueTriangles /
+   ConvertStripsToTriangles path) preserves the invariant; the operations that rebuild every
+   partition ([ks_creates]: UpdateSkinPartitions on a shape with triangles, SetShapePartitions with
+   one id per triangle, SetDefaultPartition) establish it from ANY state *)
+Theorem C10_counter_invariant_step : forall v sh o k r k',
+  ks_shape_small sh -> ks_step v sh o k = Ok (r, k') ->
+  (ks_creates sh o = true \/ ks_cnt_inv (kk_sp k)) -> ks_cnt_inv (kk_sp k').
+Proof. exact ks_step_cnt. Qed.
+Print Assumptions C10_counter_invariant_step.
+
+(* hence in every reachable state: [ks_reachable] = started from a state with the invariant (no
+   partition, partitions as loaded: C10_counter_loaded_partition) or from ANY state by a rebuilding
+   operation, then any operations *)
+Theorem C10_counter_invariant_reachable : forall v sh k,
+  ks_shape_small sh -> ks_reachable v sh k -> ks_cnt_inv (kk_sp k).
+Proof. exact ks_reachable_cnt. Qed.
+Print Assumptions C10_counter_invariant_reachable.
+
+(* the same over operation lists ([ks_run] = fold of ks_step) *)
+Theorem C10_counter_invariant_run : forall v sh ops k k',
+  ks_shape_small sh -> ks_cnt_inv (kk_sp k) -> ks_run v sh ops k = Ok k' -> ks_cnt_inv (kk_sp k').
+Proof. exact ks_run_cnt. Qed.
+Print Assumptions C10_counter_invariant_run.
+
+Theorem C10_counter_invariant_run_from_any_state : forall v sh ops1 o ops2 k k',
+  ks_shape_small sh -> ks_creates sh o = true ->
+  ks_run v sh (ops1 ++ o :: ops2) k = Ok k' -> ks_cnt_inv (kk_sp k').
+Proof. exact ks_run_creates_cnt. Qed.
+Print Assumptions C10_counter_invariant_run_from_any_state.
+
+Theorem C10_counter_loaded_partition : forall mapped p,
+  kb_tt p = [] -> kb_ns p = 0 -> kb_nt p = vlen (kb_tris p) -> vlen (kb_tris p) < 65536 -> ks_cnt_ok mapped p.
+Proof. exact ks_cnt_ok_loaded. Qed.
+Print Assumptions C10_counter_loaded_partition.
+
+(* C10_remove_empty_keeps_cover without the counter hypothesis, for every reachable state *)
+Theorem C10_remove_empty_keeps_cover_reachable : forall v sh k,
+  ks_shape_small sh -> ks_reachable v sh k ->
+  concat (map kb_tt (filter ks_nonempty (kp_parts (kk_sp k)))) = concat (map kb_tt (kp_parts (kk_sp k))).
+Proof. exact ks_remove_empty_cover_reachable. Qed.
+Print Assumptions C10_remove_empty_keeps_cover_reachable.
+
+(* ... and on the operation: total, the triangles of the partitions are the same list afterwards *)
+Theorem C10_remove_empty_loses_no_triangle : forall v sh k,
+  ks_shape_small sh -> ks_reachable v sh k ->
+  kp_np (kk_sp k) < 2 ^ 31 -> vlen (kp_parts (kk_sp k)) < 2 ^ 32 -> ks_aligned k ->
+  exists k', ks_nf_remove_empty v k = Ok k' /\ ks_reachable v sh k' /\ ks_aligned k' /\
+    kp_parts (kk_sp k') = filter ks_nonempty (kp_parts (kk_sp k)) /\
+    concat (map kb_tt (kp_parts (kk_sp k'))) = concat (map kb_tt (kp_parts (kk_sp k))).
+Proof. exact ks_nf_remove_empty_cover. Qed.
+Print Assumptions C10_remove_empty_loses_no_triangle.
 
 (* ------------------------------------------------------------------------------------------ *)
 (* UpdateSkinPartitions. [s0] is the partition block behind PrepareTriParts; the accepted domain
@@ -326,6 +393,29 @@ Theorem C10_regenerated_triparts : forall (ts : list tri) (parts : list ks_pb),
 Proof. exact ks_regen_tp_spec. Qed.
 Print Assumptions C10_regenerated_triparts.
 
+(* The regenerated triParts, exactly: the k-th copy (in shape order) of a triangle goes to the k-th
+   holder. [ks_holders c parts] lists the indices of the partitions holding c (up to Triangle::rot),
+   in partition order, each as often as it holds c; entry i of triParts is the entry number
+   "copies of ts[i] before position i" of that list, -1 when the list is that short. *)
+Theorem C10_regenerated_triparts_exact : forall (ts : list tri) (parts : list ks_pb) (i : nat) (t : tri),
+  nth_error ts i = Some t ->
+  nth_error (ks_regen_tp ts parts) i =
+  Some (nth (ks_shape_copies (ks_rot t) (firstn i ts)) (ks_holders (ks_rot t) parts) (-1)%Z).
+Proof. exact ks_regen_tp_exact. Qed.
+Print Assumptions C10_regenerated_triparts_exact.
+
+(* the half that was missing, pointwise and with multiplicities: a copy that still finds a holder
+   gets the index of a partition that holds it; the copies beyond the held number get -1 *)
+Theorem C10_regenerated_triparts_held : forall (ts : list tri) (parts : list ks_pb) (i : nat) (t : tri),
+  nth_error ts i = Some t ->
+  let k := ks_shape_copies (ks_rot t) (firstn i ts) in
+  ((k < ks_held (ks_rot t) parts)%nat ->
+     exists j p, nth_error (ks_regen_tp ts parts) i = Some (Z.of_nat j) /\ nth_error parts j = Some p /\
+                 (0 < ks_held_in (ks_rot t) p)%nat) /\
+  ((ks_held (ks_rot t) parts <= k)%nat -> nth_error (ks_regen_tp ts parts) i = Some (-1)%Z).
+Proof. exact ks_regen_tp_held. Qed.
+Print Assumptions C10_regenerated_triparts_held.
+
 (* UpdateSkinPartitions with no partition left (SetDefaultPartition, DeletePartitions {0},
    UpdateSkinPartitions) is inside the accepted domain and leaves every triangle unassigned *)
 Theorem C10_update_without_partitions :
@@ -369,6 +459,31 @@ Theorem C10_bone_slots_valid_refuted_sk :
 Proof. exact ks_bone_slots_wrap_sk. Qed.
 Print Assumptions C10_bone_slots_valid_refuted_sk.
 
+(* the counter invariant needs both bounds of [ks_shape_small]: with 65536 triangles
+   SetDefaultPartition builds ONE partition whose uint16_t numTriangles wraps to 0, and
+   RemoveEmptyPartitions would drop it with all its triangles ... *)
+Theorem C10_remove_empty_keeps_cover_refuted_65536 :
+  let sh := ks_wit_65536 in
+  let k0 := ks_mkSkin (ks_mkSP 0 [] true []) (Some []) [] in
+  let k := ks_nf_set_default KSSE sh k0 in
+  vlen (kh_tris sh) = 65536 /\ forallb (fun x => x <? 65535) (ks_corners (kh_tris sh)) = true /\
+  ks_step KSSE sh KDefault k0 = Ok (None, k) /\
+  map kb_nt (kp_parts (kk_sp k)) = [0] /\
+  filter ks_nonempty (kp_parts (kk_sp k)) = [] /\
+  vlen (concat (map kb_tt (kp_parts (kk_sp k)))) = 65536.
+Proof. exact ks_cover_lost_65536. Qed.
+Print Assumptions C10_remove_empty_keeps_cover_refuted_65536.
+
+(* ... and a corner 65535 empties the generated vertex map: numTriangles = 0 with the true
+   triangle kept *)
+Theorem C10_remove_empty_keeps_cover_refuted_corner_65535 :
+  exists k, ks_run KFO3 ks_wit_corner [KDefault; KUpdate] (ks_mkSkin (ks_mkSP 0 [] true []) (Some []) []) = Ok k /\
+    map kb_nt (kp_parts (kk_sp k)) = [0] /\
+    filter ks_nonempty (kp_parts (kk_sp k)) = [] /\
+    concat (map kb_tt (kp_parts (kk_sp k))) = [(0, 1, 65535)].
+Proof. exact ks_cover_lost_corner. Qed.
+Print Assumptions C10_remove_empty_keeps_cover_refuted_corner_65535.
+
 (* ------------------------------------------------------------------------------------------ *)
 (* Non-vacuity: the accepted domains are inhabited, with non-trivial results. *)
 Example C10_update_accepts_example :
@@ -410,3 +525,18 @@ Example C10_vertex_map_example :
   ks_pb_gen_vmap (kb_set_tt ks_pb0 [(5, 2, 9); (2, 9, 65534)]) =
   Ok (kb_set_nv (kb_set_vm (kb_set_tt ks_pb0 [(5, 2, 9); (2, 9, 65534)]) [2; 5; 9; 65534]) 4).
 Proof. vm_compute. reflexivity. Qed.
+
+(* reachable, non-trivial: 12 vertices / 10 triangles / 40 bones, UpdateSkinPartitions (splits),
+   DeletePartitions {0}, GetShapePartitions (triParts regenerated), RemoveEmptyPartitions *)
+Example C10_counter_reachable_example :
+  let sh := fst ks_wit_short in
+  ks_shape_small sh /\
+  exists k', ks_run KFO3 sh [KUpdate; KDelete [0]; KGet; KRemoveEmpty] ks_wit_short_aligned = Ok k' /\ ks_reachable KFO3 sh k' /\
+             (1 < length (kp_parts (kk_sp k')))%nat /\ (0 < length (concat (map kb_tt (kp_parts (kk_sp k')))))%nat.
+Proof. exact ks_reachable_example. Qed.
+
+Example C10_regenerated_exact_example :
+  let ts := [(0, 4, 2); (2, 0, 4); (1, 0, 3); (4, 2, 0); (7, 8, 9)] in
+  let parts := [kb_set_tt ks_pb0 [(0, 4, 2)]; kb_set_tt ks_pb0 [(1, 0, 3)]; kb_set_tt ks_pb0 [(4, 2, 0)]] in
+  ks_holders (0, 4, 2) parts = [0; 2]%Z /\ ks_regen_tp ts parts = [0; 2; 1; -1; -1]%Z.
+Proof. exact ks_regen_exact_example. Qed.
